@@ -51,10 +51,13 @@ fn rust_schema(s: &[Fld], key: Option<usize>) -> Schema {
     sc
 }
 /// independent, naive source writer: every string cell gets its own copy in the string block (no interning)
-fn naive_bytes(s: &[Fld], t: &[Vec<Cell>], intern_dups: bool) -> Vec<u8> {
+fn naive_bytes(s: &[Fld], t: &[Vec<Cell>], intern_dups: bool) -> Vec<u8> { naive_bytes_lead(s, t, intern_dups, true) }
+/// `lead` = the string block starts with the conventional empty string; without it the first string sits at offset 0 and
+/// an empty string is a reference to a NUL of its own (files of other writers look like that)
+fn naive_bytes_lead(s: &[Fld], t: &[Vec<Cell>], intern_dups: bool, lead: bool) -> Vec<u8> {
     let tys = flat_types(s);
     let rsize: usize = tys.iter().map(|t| t.size()).sum();
-    let mut block = vec![0u8];
+    let mut block = if lead { vec![0u8] } else { vec![] };
     let mut recs = Vec::new();
     let mut seen: std::collections::HashMap<Vec<u8>, u32> = Default::default();
     for r in t {
@@ -62,7 +65,7 @@ fn naive_bytes(s: &[Fld], t: &[Vec<Cell>], intern_dups: bool) -> Vec<u8> {
             match c {
                 Cell::Num(v) => recs.extend_from_slice(&v.to_le_bytes()[..ty.size()]),
                 Cell::Str(sv) => {
-                    let off = if sv.is_empty() { 0 } else if intern_dups && seen.contains_key(sv) { seen[sv] } else {
+                    let off = if sv.is_empty() { if lead { 0 } else { block.push(0); block.len() as u32 - 1 } } else if intern_dups && seen.contains_key(sv) { seen[sv] } else {
                         let o = block.len() as u32; block.extend_from_slice(sv); block.push(0); seen.insert(sv.clone(), o); o };
                     recs.extend_from_slice(&off.to_le_bytes());
                 }
@@ -168,7 +171,9 @@ fn gen_case(rng: &mut Rng, nrec: usize, allow_arrays: bool) -> Case {
 fn run_case(ctx: &mut Ctx, c: &Case, model_ok: bool) {
     let sch = schema_str(&c.s);
     let desc = format!("schema={} key={:?} table={}", sch, c.key, { let s = table_str(&c.t); if s.len() > 600 { format!("{}…({} rows)", &s[..600], c.t.len()) } else { s } });
-    let src = naive_bytes(&c.s, &c.t, ctx.rng.chance(1, 2));
+    let lead = !ctx.rng.chance(1, 4);
+    if !lead { ctx.out.stat("source.string_block_without_leading_empty_string"); }
+    let src = naive_bytes_lead(&c.s, &c.t, ctx.rng.chance(1, 2), lead);
     let has_arr = c.s.iter().any(|f| f.arr.is_some());
     let str_in_arr = c.s.iter().any(|f| f.arr.is_some() && f.ty == FT::Str);
     let key_i32 = c.key.map(|k| c.s[k].ty == FT::I32).unwrap_or(false);
@@ -241,6 +246,35 @@ fn run_case(ctx: &mut Ctx, c: &Case, model_ok: bool) {
     let it: Vec<_> = lazy.record_iterator().collect();
     ok_lazy &= it.len() == c.t.len() && it.iter().enumerate().all(|(i, r)| r.as_ref().ok().and_then(|r| row_of(r, &sb).ok()).as_ref() == Some(&c.t[i]));
     ctx.out.oracle(ok_lazy, "lazy-differs", &desc);
+    // the lazy iterator through the standard adaptors (nth / step_by / skip / last / count, alone and after the iterator
+    // has advanced): the record at every position is the eager one
+    {
+        let n = c.t.len();
+        let row = |r: Option<wow_cdbc::Result<wow_cdbc::Record>>| r.and_then(|r| r.ok()).and_then(|r| row_of(&r, &sb).ok());
+        let bad_cell: std::cell::RefCell<Option<String>> = Default::default();
+        let chk = |what: String, got: Option<Vec<Cell>>, want: Option<&Vec<Cell>>| { if bad_cell.borrow().is_none() && got.as_ref() != want { *bad_cell.borrow_mut() = Some(what); } };
+        for k in [0usize, 1, 2, 3, n.saturating_sub(1), n, n + 1] { chk(format!("nth({k})"), row(lazy.record_iterator().nth(k)), c.t.get(k)); }
+        for (a, b) in [(0usize, 0usize), (0, 1), (1, 2), (2, 0), (1, 1), (3, 4)] {
+            let mut it = lazy.record_iterator();
+            let first = row(it.nth(a)); chk(format!("nth({a}) then nth({b}): first"), first, c.t.get(a));
+            chk(format!("nth({a}) then nth({b}): second"), row(it.nth(b)), c.t.get(a + 1 + b));
+            chk(format!("nth({a}) then nth({b}) then next"), row(it.next()), c.t.get(a + b + 2));
+        }
+        for step in [1usize, 2, 3, 7] {
+            let got: Vec<Option<Vec<Cell>>> = lazy.record_iterator().step_by(step).map(|r| row(Some(r))).collect();
+            let want: Vec<Option<Vec<Cell>>> = c.t.iter().step_by(step).map(|r| Some(r.clone())).collect();
+            if bad_cell.borrow().is_none() && got != want { *bad_cell.borrow_mut() = Some(format!("step_by({step})")); }
+        }
+        for k in [1usize, 2, 5] {
+            let got: Vec<Option<Vec<Cell>>> = lazy.record_iterator().skip(k).map(|r| row(Some(r))).collect();
+            let want: Vec<Option<Vec<Cell>>> = c.t.iter().skip(k).map(|r| Some(r.clone())).collect();
+            if bad_cell.borrow().is_none() && got != want { *bad_cell.borrow_mut() = Some(format!("skip({k})")); }
+        }
+        chk("last()".into(), row(lazy.record_iterator().last()), c.t.last());
+        if bad_cell.borrow().is_none() && lazy.record_iterator().count() != n { *bad_cell.borrow_mut() = Some("count()".into()); }
+        let bad = bad_cell.into_inner();
+        ctx.out.oracle(bad.is_none(), "lazy-iterator-adaptor-differs", &format!("{desc}: {}", bad.unwrap_or_default()));
+    }
     if model_ok && !c.t.is_empty() && wb.len() < 50_000 {
         let i = ctx.rng.below(c.t.len() as u64) as usize;
         let nums: Vec<String> = lazy.get_record(i as u32).ok().map(|r| { let mut o = vec![]; let f = |o: u32| Ok(o.to_string().into_bytes());
